@@ -63,7 +63,8 @@ NrmFor(b) == IF Variant = "grad-normal" /\ b.typ = "refract" THEN Grad(hit) ELSE
 SOut == IF bend.typ = "reflect" THEN VSub(SIn, VScale(RMul(<<2, 1>>, Dot(SIn, hit.nrm)), hit.nrm))
         ELSE LET r == NrmFor(bend)  cosI == Dot(r, SIn) IN
              \* Spencer & Murty: S' = sqrt(1 - mu^2 (1 - cosI^2)) r + mu (S - cosI r); the square root is cosI' of the menu
-             VAdd(VScale(bend.ci2, r), VScale(bend.mu, VSub(SIn, VScale(cosI, r))))
+             \* (a ray that meets the surface from the +z side, cosI < 0, keeps going to the -z side: the root takes the sign of cosI)
+             VAdd(VScale(IF RLess(cosI, Z) THEN RNeg(bend.ci2) ELSE bend.ci2, r), VScale(bend.mu, VSub(SIn, VScale(cosI, r))))
 
 \* ---- the frame
 ToGlobalP(v) == VAdd(MatVec(Transpose(frame.rot), v), frame.pos)
@@ -91,7 +92,7 @@ ReflectLaw == bend.typ = "reflect" =>
    /\ VSub(SOut, VScale(Dot(SOut, hit.nrm), hit.nrm)) = VSub(SIn, VScale(Dot(SIn, hit.nrm), hit.nrm))   \* ... tangential part kept
 SnellLaw == bend.typ = "refract" =>
    /\ Cross(SIn, hit.nrm) = VScale(RInv(bend.mu), Cross(SOut, hit.nrm))              \* n (S x nrm) = n' (S' x nrm), mu = n / n'
-   /\ Dot(SOut, hit.nrm) = bend.ci2                                                  \* cos of the angle of refraction
+   /\ Dot(SOut, hit.nrm) = (IF RLess(inc[1], Z) THEN RNeg(bend.ci2) ELSE bend.ci2)    \* cos of the angle of refraction, same side as the incident ray
    /\ Dot(Cross(SIn, hit.nrm), SOut) = Z                                             \* plane of incidence
 RigidFrame == /\ MatVec(frame.rot, MatVec(Transpose(frame.rot), hit.q)) = hit.q      \* Rot Rot^T = I (on a vector)
               /\ ToLocalP(ToGlobalP(P0)) = P0 /\ ToLocalS(ToGlobalS(SIn)) = SIn
